@@ -11,7 +11,8 @@ EXPLANATION = ("Decides the structural premises of the reconfiguration API: R05.
                "update_from copies every field of the specification unconditionally; R05.4 single writer of the "
                "specification lock and closed set of writers of the stack; R05.5 every reconfiguration entry reaches the store "
                "on every non-error path. R05.2 is decided on decision rows (private accessors inlined); a pop that stores without examining whether the stack was empty is a deviation."
-               " R05.6 (shared routing table of R13.1/R02.3): log() decides from the specification it reads at that call (level and text filter) and from no remembered state.")
+               " R05.6 (shared routing table of R13.1/R02.3): log() decides from the specification it reads at that call (level and text filter) and from no remembered state."
+               " R05.8 (shared with R12.1-R12.4, R12.6): the active specification and log's global max level are replaced in one critical section, so a change that has returned has taken full effect at the facade too, whatever other changes overlap.")
 ASSUMPTIONS = ["Vec::push/pop are LIFO (std)", "filtering itself is C02's subject"]
 NOT_DECIDED = ["nothing essential of the stated property is behavioural beyond C02's matcher semantics"]
 FLOORS = {'R05.1': 2, 'R05.2': 3, 'R05.3': 1, 'R05.4': 2, 'R05.5': 5}
@@ -45,6 +46,11 @@ def run(R, ctx):
     R.rule('R05.6', 'log() decides from the specification read at the call only: no condition outside the documented routing (shared with R02.3)')
     import c13 as _c13
     _c13.routing(Relabel(R, {'R13.1': 'R05.6'}), ctx)
+    # `take full effect`: after a change has returned, what the facade lets through (log::max_level) belongs to the specification that is active - the
+    # two are replaced in ONE critical section, also when calls on cloned handles or the specfile watcher overlap (shared with R12.1-R12.4, R12.6)
+    R.rule('R05.8', 'specification and global max level are replaced together under the specification write lock (shared with R12.1-R12.4)')
+    import c12 as _c12
+    _c12.run(Relabel(R, {'R12.1': 'R05.8', 'R12.2': 'R05.8', 'R12.3': 'R05.8', 'R12.4': 'R05.8', 'R12.5': 'R05.3', 'R12.6': 'R05.8'}), ctx)
 
     # R05.1 -----------------------------------------------------------------------------------
     # decision rows of every handle function that parses a specification string: on a row where parse() returned Err
